@@ -347,7 +347,7 @@ fn simple_net() -> Network {
 
 fn sl_sim(shape: usize) -> SpeedLimitTrainSim {
     let net = simple_net();
-    let spec = TrainSpec { n_loaded: 3, n_empty: 2, davis: true, mass_override: None, length_override: None, consist: [0u8, 2, 3][shape % 3] };
+    let spec = TrainSpec { n_loaded: 3, n_empty: 2, davis: true, mass_override: None, length_override: None, consist: [0u8, 2, 3][shape % 3], cd_vec: false };
     let lm = location_map(&[("A", vec![1]), ("B", vec![2])]);
     let b = builder(&spec, Some(("A", "B")), Some(InitTrainState::new(Some(5.0 * uc::S), None, None)), Some(1));
     let mut s = b.make_speed_limit_train_sim(&lm, Some(1), None, None).unwrap();
@@ -358,7 +358,7 @@ fn sl_sim(shape: usize) -> SpeedLimitTrainSim {
 
 fn ss_sim(n: usize, shape: usize) -> SetSpeedTrainSim {
     let net = simple_net();
-    let spec = TrainSpec { n_loaded: 3, n_empty: 2, davis: true, mass_override: None, length_override: None, consist: [2u8, 0, 4][shape % 3] };
+    let spec = TrainSpec { n_loaded: 3, n_empty: 2, davis: true, mass_override: None, length_override: None, consist: [2u8, 0, 4][shape % 3], cd_vec: false };
     let b = builder(&spec, None, Some(InitTrainState::new(Some(0.0 * uc::S), None, Some(3.0 * uc::MPS))), Some(1));
     let time: Vec<f64> = (0..=n).map(|x| x as f64 * if shape == 1 { 2.0 } else { 1.0 }).collect();
     let speed: Vec<f64> = (0..=n).map(|i| 3.0 + if shape == 2 { (i % 4) as f64 * 0.2 } else { 0.15 * i as f64 }).collect();
